@@ -189,3 +189,23 @@ func TestKnownFindings(t *testing.T) {
 		probe.F9("C03")
 	}
 }
+
+// FuzzNormalForm drives the same property through Go's coverage-guided fuzzer (thorough tier):
+// the fuzz input is the bit stream rapid draws from, so mutation is guided towards generator
+// choices that reach new code in the parser / marshallers.
+func FuzzNormalForm(f *testing.F) {
+	// seed inputs: deterministic pseudo-random bit streams of a few sizes (a xorshift with fixed
+	// constants - the property itself never calls an RNG)
+	x := uint64(0x9e3779b97f4a7c15)
+	for i := 0; i < 24; i++ {
+		b := make([]byte, 512<<(i%4))
+		for j := range b {
+			x ^= x << 13
+			x ^= x >> 7
+			x ^= x << 17
+			b[j] = byte(x >> 11)
+		}
+		f.Add(b)
+	}
+	f.Fuzz(rapid.MakeFuzz(runCase))
+}
